@@ -88,23 +88,21 @@ End Main.
 
 Theorem reference_roundtrip : forall sc ty v b fuel,
   schema_ok sc = true -> value_ok sc (S (vdepth v)) ty v = true ->
-  unknowns_ok sc (S (vdepth v)) ty v = true -> neg_zero_free sc (S (vdepth v)) ty v = true ->
+  unknowns_ok sc (S (vdepth v)) ty v = true ->
   N.of_nat (gen_size sc (S (vdepth v)) ty v) < 2^31 ->
   gen_marshal sc ty v = MBytes b ->
   exists v', ref_decode sc (S (length b)) ty b = Some v' /\
              ((vdepth v < fuel)%nat -> (vdepth v' < fuel)%nat -> normalize sc fuel ty v' = normalize sc fuel ty v).
 Proof.
-  intros sc ty v b fuel Hsc Hv Hu Hnz Hsz Hm.
+  intros sc ty v b fuel Hsc Hv Hu Hsz Hm.
   pose proof (marshal_spec sc ty v Hsc Hv Hsz) as Hms. rewrite Hm in Hms.
   destruct Hms as [Hlen (ops & Hops & Hb)].
-  unfold unknowns_ok in Hu. unfold neg_zero_free in Hnz.
-  pose proof (all_msgs_and sc _ _ _ _ _ Hu Hnz) as Hq.
+  unfold unknowns_ok in Hu. pose proof Hu as Hq.
   match type of Hq with all_msgs _ ?Q0 _ _ _ = true => set (Q := Q0) in * end.
   assert (HQ : forall md fs u, Q md fs u = true ->
             unknown_ok_at md u = true /\
             forall fd, In fd (mfields md) -> nz_field fd (lookup_field (fnum fd) fs) = true).
-  { intros md fs u H. unfold Q in H. apply andb_prop in H. destruct H as [H1 H2]. split; [exact H1|].
-    rewrite forallb_forall in H2. intros fd Hin. exact (H2 fd Hin). }
+  { intros md fs u H. split; [exact H|]. intros fd Hin. reflexivity. }
   destruct (main sc Hsc Q HQ (S (vdepth v)) ty v ops Hv Hq Hops Hsz) as [_ Hd].
   subst b. destruct (Hd (S (length (gbytes ops))) ltac:(lia)) as (v' & Hdec & [_ Hrel]).
   exists v'. split; [exact Hdec|]. intros H1 H2. apply Hrel; assumption.
